@@ -37,6 +37,7 @@ def plan(tier, seed):
             for d in ALPHABET:
                 specs.append({"kind": "exh", "prefix": c + d, "rest": L_ - 2, "seed": seed})
         specs.append({"kind": "exh1", "seed": seed})
+    specs.append({"kind": "nul", "seed": seed})
     nsoup = 20000 if tier == "quick" else 400000
     for i in range(nsoup // 2000):
         specs.append({"kind": "soup", "chunk": i, "n": 2000, "seed": seed})
@@ -57,6 +58,20 @@ def gen_cases(spec):
                 out.append(({"main": p + "".join(w)}, "main"))
         if p == ALPHABET[0] or p == ALPHABET[0] * 2:
             out.append(({"main": ""}, "main"))
+    elif k == "nul":
+        # NUL bytes everywhere, in particular at the end of main and included files (a C string ends there)
+        small = "\x00a \n\""
+        for n in range(0, 6):
+            for w in itertools.product(small, repeat=n):
+                out.append(({"main": "".join(w)}, "main"))
+        r = common.rng(spec["seed"], "C14nul")
+        tails = ["\x00", "\x00\x00", "\x00\x00\x00", "\n\x00\x00", "x\x00\x00", "\x00\x00\n", "\x00 \x00", "\x00\x00x"]
+        for _ in range(300):
+            body = " ".join(r.choice(["x", ":=", "1", ";", "END", "\"q\"", "// c\n", "\n"]) for _ in range(r.randint(0, 8)))
+            t1, t2 = r.choice(tails), r.choice(tails)
+            out.append(({"main": body + t1}, "main"))
+            out.append(({"main": 'a include "inc" b include "inc" c' + t2, "inc": body + t1}, "main"))
+            out.append(({"main": t1 + body + t2}, "main"))
     elif k == "exh1":
         for c in ALPHABET:
             out.append(({"main": c}, "main"))
